@@ -156,6 +156,11 @@ def main(out_path):
     res = list(re.finditer(r'if (?P<c>[^{};]+) \{ for \(htlc_source, \(htlc, preimage_opt\)\) in monitor\.get_all_current_outbound_htlcs\(\) \{', cm))
     if len(ins) != 1 or len(res) != 1: fail('ChannelManager::read: expected ONE insert pass and ONE claim/fail pass over get_all_current_outbound_htlcs (%d, %d)' % (len(ins), len(res)))
     ins, res = ins[0], res[0]
+    m4 = re.search(r'for \(channel_id, monitor\) in args\.channel_monitors\.iter\(\) \{ let \(mut is_channel_closed, mut user_channel_id_opt\) = \(true, None\); let counterparty_node_id = monitor\.get_counterparty_node_id\(\); '
+                   r'if let Some\(peer_state_mtx\) = per_peer_state\.get\(&counterparty_node_id\) \{ let mut peer_state_lock = peer_state_mtx\.lock\(\)\.unwrap\(\); let peer_state = &mut \*peer_state_lock; '
+                   r'if let Some\(chan\) = peer_state\.channel_by_id\.get\(channel_id\) \{ is_channel_closed = false;', cm)
+    if not m4 or not (ins.start() < m4.start() < res.start()) or cm[m4.end():res.start()].count('is_channel_closed =') != 0:
+        fail('ChannelManager::read: the claim / fail pass no longer computes is_channel_closed as "true unless channel_by_id has the channel"')
     if not (m3.start() < ins.start() < res.start()): fail('ChannelManager::read: the insert pass no longer precedes the claim / fail pass')
     from rs2lean import match_brace
     k = cm.index('{', ins.start()); ins_block = cm[k:match_brace(cm, k)]
